@@ -7,7 +7,8 @@
                     `escaped_delimiter` / `self._peek in escapes` / `is_valid_custom_escape` (ESCAPE_FOLLOW_CHARS) and the
                     `self._char not in quotes or self._char == self._peek` guard, the delimiter test, end of input.
                     Exceptions (TokenError, and the IndexError of `_advance` past the end that `tokenize` wraps) are `.err`.
-  * `fastPath`    — the `str.find` fast path of `_extract_string` with its three preconditions.
+  * `fastPath`    — the `str.find` fast path of `_extract_string` with its four preconditions (found; not doubled;
+                    no backslash to process; no CR in the text).
   * `extract`     — fast path if it applies, else slow path.
   * `escapeStr`   — `Generator.escape_str` (ESCAPED_SEQUENCES map when the generator's dialect supports it, then
                     `replace(QUOTE_END, _escaped_quote_end)`), `pretty=False` (the sentinel step is the identity then).
@@ -175,7 +176,8 @@ def fastPath (c : Cfg) (s : List Char) : Option (List Char × List Char) :=
   | none => none
   | some (pre, post) =>
     if (post.head? != some c.q || !c.isEsc c.q)
-        && (!(!c.unesc.isEmpty || c.isEsc '\\') || !pre.contains '\\') then some (pre, post)
+        && (!(!c.unesc.isEmpty || c.isEsc '\\') || !pre.contains '\\')
+        && !pre.contains '\r' then some (pre, post)   -- a lone CR is a line break for `_advance`: slow path
     else none
 
 /-- `_extract_string` (one-character delimiter, non-raw) on the stream after the opening delimiter -/
